@@ -24,8 +24,13 @@ REQUIRED = [
     'Ems.C07.grid_mask_spec', 'Ems.C07.grid_mask_order_irrelevant',
     'Ems.C07.buffer_faces_spec', 'Ems.C07.buffer_iter', 'Ems.C07.mesh_mask_spec',
     'Ems.C07.renumber_spec', 'Ems.C07.mask_monotone_grid', 'Ems.C07.mask_monotone_mesh',
+    'Ems.C07.blur_zero', 'Ems.C07.blur_blur', 'Ems.C07.blur_refusals', 'Ems.C07.cmask_shapes',
+    'Ems.C07.grid_mask_eq_blur', 'Ems.C07.arakawa_mask_spec', 'Ems.C07.mask_monotone_arakawa',
+    'Ems.C07.buffer_faces_sorted', 'Ems.C07.kept_faces_spec', 'Ems.C07.kept_faces_sorted',
+    'Ems.C07.renumber_contiguous', 'Ems.C07.renumber_order_irrelevant',
+    'Ems.C07.hit_order_numbering_violates',
 ]
-RULE = ('primitives: boolean arrays (thorough: every array of every shape 0..4 x 0..4; quick: a seeded sample of '
+RULE = ('primitives: boolean arrays (thorough: every array of every shape 1..4 x 1..4; quick: a seeded sample of '
         'them plus random arrays up to 7x9) through blur_mask for size 0..3 and smear_mask for all four pad_axes '
         'choices, c_mask_from_centres; dataset level: make_clip_mask of cf1d, cf2d, shoc_simple, shoc_standard, '
         'ugrid without / with an edge dimension x 14 geometry classes (box, polygon, line, point, multi-part, '
@@ -222,29 +227,29 @@ def run_primitives(ctx, items: list, fails: list) -> None:
     rng = ctx.rng
     if ctx.thorough and not ctx.searching:
         n = 0
-        for ny in range(0, 5):
-            for nx in range(0, 5):
+        for ny in range(1, 5):
+            for nx in range(1, 5):
                 for code in range(2 ** (ny * nx)):
                     arr = np.array([(code >> k) & 1 for k in range(ny * nx)], dtype=bool).reshape(ny, nx)
                     prim_case(ctx, arr, items, fails, 'exhaustive<=4x4')
                     n += 1
         ctx.exhaustive = True
-        ctx.notes.append(f'primitives: all {n} boolean arrays of shape 0..4 x 0..4 enumerated')
+        ctx.notes.append(f'primitives: all {n} boolean arrays of shape 1..4 x 1..4 enumerated')
         extra = 1500
     else:
         # a seeded sample of the exhaustive space: all arrays up to 2x3 / 3x2, then random ones up to 4x4
-        for ny in range(0, 4):
-            for nx in range(0, 4):
+        for ny in range(1, 4):
+            for nx in range(1, 4):
                 if ny * nx <= 6:
                     for code in range(2 ** (ny * nx)):
                         arr = np.array([(code >> k) & 1 for k in range(ny * nx)], dtype=bool).reshape(ny, nx)
                         prim_case(ctx, arr, items, fails, 'all<=6cells')
-        for _ in range(ctx.budget(700, 3000)):
+        for _ in range(ctx.budget(2000, 3000)):
             ny, nx = rng.randint(1, 4), rng.randint(1, 4)
             dens = rng.choice([0.1, 0.3, 0.5, 0.8])
             arr = np.array([rng.random() < dens for _ in range(ny * nx)], dtype=bool).reshape(ny, nx)
             prim_case(ctx, arr, items, fails, 'sample<=4x4')
-        extra = ctx.budget(250, 1500)
+        extra = ctx.budget(400, 1500)
     for k in range(extra):
         ny, nx = rng.randint(1, 7), rng.randint(1, 9)
         dens = rng.choice([0.03, 0.1, 0.3, 0.6])
@@ -352,7 +357,12 @@ def clip_case(ctx, case: Case, geom, gclass: str, buffer: int, items: list, fail
     """one make_clip_mask call: canonical impl output, op line for the model, direct oracle"""
     rng = ctx.rng
     c, built = case.c, case.built
-    truth = case.truth(geom)
+    try:
+        truth = case.truth(geom)
+    except shapely.errors.GEOSException as e:
+        # GEOS refuses the geometry itself (zero-length segment ...): not an input of the property
+        ctx.count('geos-refuses-geometry')
+        return
     tbits = ''.join('1' if t else '0' for t in truth) or '-'
     true_cells = [n for n, t in enumerate(truth) if t]
     desc = {'recipe': case.recipe, 'geom': CG.to_hex(geom), 'wkt': geom.wkt[:300], 'class': gclass, 'buffer': buffer}
@@ -486,7 +496,7 @@ def subset(a, b) -> bool:
 
 def run_datasets(ctx, items: list, fails: list, f1_lines: list) -> None:
     rng = ctx.rng
-    per_variant = ctx.budget(7, 40)
+    per_variant = ctx.budget(16, 60)
     for variant in CONV_VARIANTS:
         for d in range(per_variant):
             recipe = recipe_for(rng, variant, ctx.tier)
